@@ -489,8 +489,8 @@ theorem merge_spec (h : Heap) (os : List Obj) :
   · simp only [Option.some.injEq] at ha; omega
   · simp at hl
 
-theorem partsNew_spec (h : Heap) (ms : List (List Nat)) (ss : List (List Rat)) :
-    Ext h (partsNew h ms ss).1 ∧ ∀ p ∈ (partsNew h ms ss).2, FreshSince h p := by
+theorem partsNew_spec (h : Heap) (timed : Bool) (ms : List (List Nat)) (ss : List (List Rat)) :
+    Ext h (partsNew h timed ms ss).1 ∧ ∀ p ∈ (partsNew h timed ms ss).2, FreshSince h p := by
   induction ms generalizing h ss with
   | nil => exact ⟨by simp [partsNew]; exact Ext.refl h, fun p hp => by simp [partsNew] at hp⟩
   | cons m mr ih =>
@@ -499,8 +499,8 @@ theorem partsNew_spec (h : Heap) (ms : List (List Nat)) (ss : List (List Rat)) :
       | cons s sr =>
           simp only [partsNew]
           obtain ⟨e1, _, _, m1⟩ := allocList_spec h (m.map h.get)
-          have e2 : Ext (h.allocList (m.map h.get)).1 ((h.allocList (m.map h.get)).1.alloc (.rats s)).1 := alloc_ext _ _
-          obtain ⟨e3, f3⟩ := ih ((h.allocList (m.map h.get)).1.alloc (.rats s)).1 sr
+          obtain ⟨e2, m2⟩ := optAlloc_spec (h.allocList (m.map h.get)).1 (if timed then some 0 else none) (fun _ => Val.rats s)
+          obtain ⟨e3, f3⟩ := ih (optAlloc (h.allocList (m.map h.get)).1 (if timed then some 0 else none) (fun _ => Val.rats s)).1 sr
           refine ⟨e1.trans (e2.trans e3), ?_⟩
           intro p hp
           simp only [List.mem_cons] at hp
@@ -510,7 +510,7 @@ theorem partsNew_spec (h : Heap) (ms : List (List Nat)) (ss : List (List Rat)) :
             rcases ha with ha | ha | ha | ⟨l, hl, hal⟩
             · simp at ha
             · simp at ha
-            · simp only [alloc_addr, Option.some.injEq] at ha; subst ha; exact e1.mono
+            · exact Nat.le_trans e1.mono (m2 a ha).1
             · simp only [Option.some.injEq] at hl; subst hl; exact (m1 a hal).1
           · exact (f3 p hp).mono (e1.trans e2).mono
 
@@ -527,7 +527,7 @@ theorem splitNew_spec (h : Heap) (o : Obj) (cut : Bool) (bounds : List Nat) :
       have e1 := forceSe3_ext h o
       have l1 := forceSe3_local h o
       generalize forceSe3 h o = r1 at e1 l1
-      obtain ⟨e2, f2⟩ := partsNew_spec r1.1 (segments (r1.2.se3?.getD []) bounds)
+      obtain ⟨e2, f2⟩ := partsNew_spec r1.1 r1.2.stamps?.isSome (segments (r1.2.se3?.getD []) bounds)
         (segments ((r1.2.stamps?.map r1.1.rats).getD []) bounds)
       refine ⟨e1.trans e2, fun p hp => (f2 p hp).mono e1.mono, ?_⟩
       exact l1.trans (Local.ofExt e2 (fun a ha => Or.inl ha))
